@@ -108,6 +108,9 @@ _sha512_ctx_mgr_submit_base(ISAL_SHA512_HASH_CTX_MGR *mgr, ISAL_SHA512_HASH_CTX 
                 return ctx;
         }
 
+        // A valid call: do not report the error of an earlier, rejected one
+        ctx->error = ISAL_HASH_CTX_ERROR_NONE;
+
         if (flags == ISAL_HASH_FIRST) {
 
                 sha512_init(ctx, buffer, len);
